@@ -122,9 +122,9 @@ func inChild(entry int, data []byte) string {
 			o = o[:600]
 		}
 		return fmt.Sprintf("decoder did not return normally (%v): %s", err, strings.ReplaceAll(o, "\n", " | "))
-	case <-time.After(60 * time.Second):
+	case <-time.After(180 * time.Second):
 		cmd.Process.Kill()
-		return "decoder still running after 60 s on a tiny input (hang)"
+		return "decoder still running after 180 s on a tiny input (hang)"
 	}
 }
 
